@@ -2,9 +2,9 @@ package core
 
 import (
 	"context"
-	"os"
 	"fmt"
 	"net"
+	"os"
 	"runtime"
 	"sort"
 	"strings"
@@ -128,6 +128,9 @@ func (w *World) wakeAt(t time.Duration) {
 	w.wakes = append(w.wakes, t)
 	w.mu.Unlock()
 }
+
+// WakeAt makes the driver look again at simulated instant t.
+func (w *World) WakeAt(t time.Duration) { w.wakeAt(t); w.kickDriver() }
 
 // At schedules an environment event d from now. It becomes an enabled action at that instant.
 func (w *World) At(d time.Duration, label string, fn func()) {
@@ -340,6 +343,26 @@ func BubbleStacks() []string {
 		}
 	}
 	return out
+}
+
+// BubbleGoroutines returns the number of goroutines that belong to the calling goroutine's synctest bubble.
+func BubbleGoroutines() int {
+	var hdr [128]byte
+	n := runtime.Stack(hdr[:], false)
+	first := string(hdr[:n])
+	i := strings.Index(first, "synctest bubble ")
+	if i < 0 {
+		return -1
+	}
+	j := i + len("synctest bubble ")
+	k := j
+	for k < len(first) && first[k] >= '0' && first[k] <= '9' {
+		k++
+	}
+	marker := first[i:k] + "]"
+	buf := make([]byte, 4<<20)
+	m := runtime.Stack(buf, true)
+	return strings.Count(string(buf[:m]), marker)
 }
 
 // CountGoroutines returns the number of live goroutines whose stack mentions the repository.
